@@ -90,7 +90,7 @@ def simplify_traits(t):
     """evaluate the <type_traits> aliases that clang leaves unevaluated in function type strings"""
     # xtl's SFINAE aliases  disable_xcomplex<E, R> / enable_xcomplex<E, R> / enable_scalar<E, R>  are R when the overload exists
     for _ in range(4):
-        m = re.search(r'(?:xtl::)?(?:disable_xcomplex|enable_xcomplex|enable_scalar)<', t)
+        m = re.search(r'(?:typename )?(?:(?:xtl::)?(?:disable_xcomplex|enable_xcomplex|enable_scalar)|std::enable_if_t)<', t)
         if not m:
             break
         i = m.end(); d = 1; j = i
@@ -98,6 +98,42 @@ def simplify_traits(t):
             d += t[j] == '<'; d -= t[j] == '>'; j += 1
         parts = split_top(t[i:j - 1])
         t = t[:m.start()] + (parts[1].strip() if len(parts) > 1 else 'void') + t[j:]
+    # std::conditional_t<std::is_reference<X>::value, A, B>  and  xtl's apply_cv_t<X, Y>
+    for _ in range(4):
+        m = re.search(r'(?:typename )?std::conditional_t<std::is_reference<', t)
+        if not m:
+            break
+        i = t.index('<', m.start()) + 1; d = 1; j = i
+        while j < len(t) and d:
+            d += t[j] == '<'; d -= t[j] == '>'; j += 1
+        parts = split_top(t[i:j - 1])
+        mm = re.fullmatch(r'\s*std::is_reference<(.*)>::value\s*', parts[0])
+        if not mm or len(parts) != 3:
+            break
+        t = t[:m.start()] + (parts[1] if mm.group(1).strip().endswith('&') else parts[2]).strip() + t[j:]
+    for _ in range(4):
+        m = re.search(r'(?:xtl::)?apply_cv_t<', t)
+        if not m:
+            break
+        i = m.end(); d = 1; j = i
+        while j < len(t) and d:
+            d += t[j] == '<'; d -= t[j] == '>'; j += 1
+        parts = split_top(t[i:j - 1])
+        if len(parts) != 2:
+            break
+        x = parts[0].strip().rstrip('&').strip()
+        t = t[:m.start()] + ('const ' if (x.startswith('const ') or x.endswith(' const')) else '') + parts[1].strip() + t[j:]
+    # typename std::remove_reference<X>::type  ->  std::remove_reference_t<X>
+    for _ in range(4):
+        m = re.search(r'(?:typename )?std::(remove_reference|remove_cv|remove_const|decay|add_const)<', t)
+        if not m:
+            break
+        i = m.end(); d = 1; j = i
+        while j < len(t) and d:
+            d += t[j] == '<'; d -= t[j] == '>'; j += 1
+        if t[j:j + 6] != '::type':
+            break
+        t = t[:m.start()] + 'std::%s_t<%s>' % (m.group(1), t[i:j - 1]) + t[j + 6:]
     for _ in range(12):
         m = None
         for m in re.finditer(r'(?:typename )?std::(add_lvalue_reference_t|add_rvalue_reference_t|add_const_t|decay_t|remove_reference_t|remove_const_t|remove_cv_t|add_pointer_t|remove_pointer_t)<', t):
@@ -471,6 +507,12 @@ class Lower:
 
     def rec_alias_of(self, rec):
         ts0 = self.tu.rec_typestr(rec)
+        # exact (const-preserving) spelling first: xclosure_wrapper<const int&> and xclosure_wrapper<int&> are different records
+        for v in self.typestr_variants(rec, ts0):
+            if 'const' in v:
+                for rx, al in self.rec_alias:
+                    if 'const' in rx and re.fullmatch(rx, norm_tc(v)):
+                        return al
         for v in self.typestr_variants(rec, ts0):
             for ts in (norm_t(v), self.strip_default_args(norm_t(v))):
                 for rx, al in self.rec_alias:
@@ -522,7 +564,7 @@ class Lower:
         return '%s %s' % (self.ctype(t), name)
 
     def ctype(self, tstr):
-        if 'std::' in tstr and '_t<' in tstr:
+        if ('std::' in tstr and ('_t<' in tstr or '>::type' in tstr)) or 'apply_cv_t<' in tstr:
             tstr = simplify_traits(tstr)
         t = strip_cv(tstr)
         t = re.sub(r'\s+', ' ', t)
@@ -1554,6 +1596,8 @@ class Lower:
                 return '(*(%s*)%s)' % (self.ctype(strip_cv(dq(n['type'])).rstrip('&')), self.addr(e))
             if ck == 'LValueBitCast':
                 return '(*(%s*)%s)' % (self.ctype(strip_cv(dq(n['type'])).rstrip('&')), self.addr(e))
+            if ck == 'UserDefinedConversion':
+                return self.lv(e)        # conversion function returning a reference: the call below yields the lvalue
             raise Unsupported('lvalue cast ' + str(ck))
         if k in ('BinaryOperator', 'CompoundAssignOperator') and (n['opcode'].endswith('=') and n['opcode'] not in ('==', '!=', '<=', '>=')):
             l, r = n['inner']
